@@ -5,6 +5,7 @@ import Flowjaxv.Proofs.Triangular
 import Flowjaxv.Proofs.LogDet
 import Flowjaxv.Proofs.NetLawful
 import Flowjaxv.Proofs.Flows
+import Flowjaxv.Proofs.JaxTransforms
 /-!
 # C01 — every bijection is invertible: inverse undoes transform, both ways
 
@@ -564,5 +565,36 @@ theorem bnaf_flow_instance (invert : Bool)
 
 end PremadeFlows
 /-! ## ===== END premade flows ===== -/
+
+/-! ## Scan, REGENERATED (`Gen/JaxTransforms.lean`; meanings of `lax.scan` / `eqx.partition` / `eqx.combine`: `Model/JaxTrWorld.lean`) -/
+section JaxTransformsGen
+open GenJaxTr
+
+/-- **the generated `Scan`** (the four methods translated from `jax_transforms.py` with their `step` closures and
+`_filter_scan`, `reverse=True` on both inverse passes) of typed-composable lawful layers — any number, heterogeneous — is a
+lawful bijection: both round trips, and the points returned by the `…_and_log_det` methods are the plain methods'. -/
+theorem gen_scan_lawful {X C : Type} {s : JaxTr.Scan X C ℝ} {D E : Set X} (h : ChainLawful s.bijection.layers D E) :
+    s.toBij.Lawful D E := JaxTrProofs.scan_lawful h
+
+/-- non-vacuity: `Scan` of the stacked layers `Affine(1, −2)`, `Affine(1/2, 4)` is lawful ℝ ↔ ℝ (the reverse order of the inverse
+pass is made visible at a concrete point by `C08.gen_scan_instance`). -/
+theorem gen_scan_lawful_instance {C : Type} :
+    (JaxTr.scanOfLayers [((Affine.mk 1 (-2) : Affine ℝ).toBij : Bij ℝ C ℝ), (Affine.mk (1/2) 4 : Affine ℝ).toBij]).toBij.Lawful
+      univ univ :=
+  gen_scan_lawful (.cons (Leaves.affine_lawful _ (by norm_num)) (.cons (Leaves.affine_lawful _ (by norm_num)) (.nil _)))
+
+/-- **the generated `Vmap`** (methods translated from `jax_transforms.py`; `eqx.filter_vmap` as in `Model/JaxTrWorld.lean`) with a
+broadcast condition is a lawful bijection of the declared shape `axis_size :: cshape` — mapped (`in_axes`) or broadcast
+(`axis_size`) parameters — whenever the per-call bijections are lawful on `cshape`; `gen_vmap_roundtrip` (C08) is the pointwise
+statement for a condition mapped along any axis. -/
+theorem gen_vmap_lawful {κ : Type} [Inhabited κ] (v : JaxTr.Vmap κ ℝ) (cs : List Nat) (hx0 : v.in_axes.2.1 = 0)
+    (hc : v.in_axes.2.2 = none)
+    (hm : (JaxTr.mapModule v.in_axes.1 v.bijection v.axis_size).length = v.axis_size) (hpos : 0 < v.axis_size)
+    (hb : ∀ b ∈ JaxTr.mapModule v.in_axes.1 v.bijection v.axis_size, b.toBij.Lawful (ArrComb.WS cs) (ArrComb.WS cs)) :
+    v.toBij.Lawful (ArrComb.WS (v.axis_size :: cs)) (ArrComb.WS (v.axis_size :: cs)) :=
+  JaxTrProofs.vmap_lawful v cs hx0 hc hm hpos hb
+
+end JaxTransformsGen
+
 
 end C01
